@@ -122,12 +122,25 @@ def sortLess (env : Env) (E : Ty) : Option (Val → Val → Res Bool) :=
 
 /-! The same choices with the method-aware models of S/Methods.lean (`EqualM`, `CompareM`: a named type that
 declares its own Equal / Compare method is compared by that method where the generator calls it). The
-plugins' own `canEqual` / `isOrdered` tests are structural and do not look at methods. On environments
+plugins' own `isOrdered` test is structural; their `canEqual` test also asks `derive.HasEqualMethod`. On environments
 without methods these coincide with the definitions above (`EqualM` / `CompareM` agree with `Equal` /
 `Compare` there: Props/C02, C03); the driver runs these. -/
 
+/-- contains (and union / intersect through it): `v == item` when `canEqual(etyp) && !derive.HasEqualMethod(etyp)`
+— comparable and no own Equal method on the type or on a field / array element, which is `canEqualM` —
+else `deriveEqual(v, item)` -/
 def elemEqM (env : Env) (E : Ty) : Val → Val → Res Bool :=
-  if canEqual env E then fun a b => .ok (goEq a b) else EqualM.top env E
+  if canEqualM env E then fun a b => .ok (goEq a b) else EqualM.top env E
+
+/-- unique: the map-key path when `derive.IsComparable(elem) && !derive.HasEqualMethod(elem)`, else the
+hash-bucket loop with `deriveHash` / `deriveEqual` -/
+def uniqueUsesMapM (env : Env) (E : Ty) : Bool := canEqualM env E
+
+/-- unique, hash-bucket loop: `hash := deriveHash(list[i])`, except for a `==`-comparable element type with an
+own Equal method inside (`IsComparable && HasEqualMethod`), where `hash := uint64(0)`: one bucket, every
+element is compared with all the kept ones (nothing says the derived hash agrees with the method) -/
+def uniqueHashM (env : Env) (E : Ty) : Val → Res UInt64 :=
+  if canEqual env E && !canEqualM env E then fun _ => .ok 0 else HashM.top env E
 
 def minLtM (env : Env) (E : Ty) : Val → Val → Res Bool :=
   if isOrderedBasic E then goLt else fun a b => cmpNeg (CompareM.top env E a b)
